@@ -5,8 +5,8 @@ import (
 	"go/ast"
 	"go/constant"
 	"go/token"
-	"os"
 	"go/types"
+	"os"
 	"strings"
 
 	"golang.org/x/tools/go/ssa"
@@ -143,6 +143,28 @@ func checkR02g(p *Prog, r *Report) {
 				}
 			}
 			if !all {
+				// a result variable that still holds its placeholder on some way into the return: `var e coq.Expr;
+				// switch … { default: reject() }; return e`
+				if len(ret.Results) == 1 {
+					_, isIface := ret.Results[0].Type().Underlying().(*types.Interface)
+					// (a nil slice is the empty list an accumulating loop starts from)
+					if ph, ok := ret.Results[0].(*ssa.Phi); ok && isIface {
+						for i, e := range ph.Edges {
+							pred := ph.Block().Preds[i]
+							if !placeholderValue(e) {
+								continue
+							}
+							r.Sites++
+							nth++
+							key := fmt.Sprintf("%s returns %s left unset (#%d)", FuncName(f), sk(e), nth)
+							if !reach[pred] || p.blockDiverges(pred) {
+								r.OK("R02g", key+" (after a rejection)", instrPos(ret), "the way into the return on which the result is still unset ends in a diverging rejection")
+							} else {
+								r.Unknown("R02g", key, instrPos(ret), fmt.Sprintf("%s returns its result variable, which is still %s when control arrives from block %d without a rejection: the construct is translated as an empty term", f.Name(), sk(e), pred.Index))
+							}
+						}
+					}
+				}
 				continue
 			}
 			r.Sites++
@@ -251,6 +273,26 @@ func checkEmptyGuards(p *Prog, r *Report) {
 	n := 0
 	for _, f := range pk.Syntax {
 		ast.Inspect(f, func(nd ast.Node) bool {
+			// a type switch over syntax or type values with an empty clause accepts that kind of node and does
+			// nothing with it; an empty default of any switch accepts everything that was not listed
+			switch sw := nd.(type) {
+			case *ast.TypeSwitchStmt:
+				for _, c := range sw.Body.List {
+					if cc := c.(*ast.CaseClause); len(cc.Body) == 0 {
+						what := "default"
+						if len(cc.List) > 0 {
+							what = "case " + types.ExprString(cc.List[0])
+						}
+						r.Fail("R02g", "clause without effect: type switch "+what, cc.Pos(), "the "+what+" clause of this type switch is empty: nodes of that kind are accepted and ignored instead of being translated or rejected", "")
+					}
+				}
+			case *ast.SwitchStmt:
+				for _, c := range sw.Body.List {
+					if cc := c.(*ast.CaseClause); len(cc.Body) == 0 && cc.List == nil {
+						r.Fail("R02g", "clause without effect: default", cc.Pos(), "the default clause of this switch is empty: every value that was not listed is accepted and falls through to the code after the switch", "")
+					}
+				}
+			}
 			is, ok := nd.(*ast.IfStmt)
 			if !ok {
 				return true
